@@ -22,7 +22,7 @@ NS = "Pysersic.Props.C20."
 OBLIGATIONS = [NS + t for t in [
     "inBox_iff", "inBox_admissible", "inBox_zero", "pixel_outside", "pixel_inside", "pixel_os_zero", "osPixel_const",
     "split_partition", "realPart_length", "fourierPart_length", "realPart_get", "hybrid_zero_eq_fourier",
-    "hybrid_pointsource_eq_fourier", "same_sigma_grid", "sigma_first", "sigma_last", "repo_defaults_admissible",
+    "hybrid_pointsource_eq_fourier", "same_sigma_grid", "sigma_first", "sigma_last", "repo_defaults_admissible", "repo_pixel_box", "repo_pixel_box_lo",
 ]]
 # kernels whose translated source text (Gen/Kernels.lean) is proved equal to the model kernel this property's theorems are about
 GEN_KERNELS = ["render_sersic_2d", "render_gaussian_pixel_term", "render_gaussian_fourier_term"]
